@@ -79,6 +79,9 @@ Fixpoint serialize_cdata_go (s : str) (seen : nat) : str :=
       else if c =? c_gt then
         if Nat.eqb seen 2 then s_cdata_split ++ serialize_cdata_go s' 0
         else rbrs seen ++ c_gt :: serialize_cdata_go s' 0
+      else if c =? c_cr then
+        (* a CR cannot be kept inside a section: close it, write the reference, open a new one *)
+        rbrs seen ++ s_cdata_close ++ s_cr ++ s_cdata_open ++ serialize_cdata_go s' 0
       else rbrs seen ++ c :: serialize_cdata_go s' 0
   end.
 
